@@ -763,6 +763,11 @@ def pairwise_docs(tokens=False):
                          ('bulletline', 'BULLETS\n  * ~b %s\n    FOOTNOTE 1\n      ~note\n'),
                          ('atthead', '~x\nSCHEDULE ~S %s\n  FOOTNOTE 1\n    ~note\n  ~y\n'),
                          ('attsub', '~x\nSCHEDULE ~S\n  SUBHEADING %s\n  FOOTNOTE 1\n    ~note\n  ~y\n'),
-                         ('cell', 'TABLE\n  TR\n    TC\n      ~c %s\n      FOOTNOTE 1\n        ~note\n')]:
-            out.append(('%s/fn-depth%d' % (pn, d), _pw_finish(tmpl.replace('%s', ref), tokens), 'act'))
+                         ('cell', 'TABLE\n  TR\n    TC\n      ~c %s\n      FOOTNOTE 1\n        ~note\n'),
+                         ('listwrap', 'ITEMS\n  ITEM (a)\n    ~x\n  ~wrap %s\n  FOOTNOTE 1\n    ~note\n'),
+                         ('longtitle', 'PREFACE\n  LONGTITLE ~L %s\n  FOOTNOTE 1\n    ~note\nBODY\n  ~x\n'),
+                         ('scene', 'DEBATESECTION\n  SCENE ~s %s\n  FOOTNOTE 1\n    ~note\n'),
+                         ('narrative', 'DEBATESECTION\n  SPEECH\n    FROM ~a\n    NARRATIVE ~n %s\n    FOOTNOTE 1\n      ~note\n'),
+                         ('summary', 'DEBATESECTION\n  SUMMARY ~s %s\n  FOOTNOTE 1\n    ~note\n')]:
+            out.append(('%s/fn-depth%d' % (pn, d), _pw_finish(tmpl.replace('%s', ref), tokens), 'debate' if pn in ('scene', 'narrative', 'summary') else 'act'))
     return out
